@@ -139,7 +139,7 @@ def rustc_errors(stdout):
                     fname = e["span"].get("file_name", fname)
                     line_no = e["span"].get("line_start", line_no)
             break
-        errs.append({"package": pkg, "file": fname, "line": line_no, "message": msg.get("message", ""),
+        errs.append({"package": pkg, "file": fname, "line": line_no, "message": msg.get("message", ""), "code": (msg.get("code") or {}).get("code"),
                      "expansion": exp, "rendered": (msg.get("rendered") or "")[:1500]})
     return errs
 
